@@ -96,7 +96,14 @@ class LoopSummariser:
         for nm in assigned:
             if nm not in carried:
                 body_env.vars.pop(nm, None)
-        n_stores_before = dict(env.stores)
+        stored_arrays = _stored_arrays(ev, body_env, s.body)
+        fills: dict[str, Poly] = {}
+        for key in list(body_env.stores):
+            if key[0] in stored_arrays:
+                if key[1] == ("fill",):
+                    fills[key[0]] = body_env.stores[key]
+                del body_env.stores[key]
+        n_stores_before = dict(body_env.stores)
         self.depth += 1
         try:
             out = ev.block(body_env, s.body)
@@ -104,8 +111,27 @@ class LoopSummariser:
             self.depth -= 1
         if out.returned not in (None, ("continue",)):
             raise Unsupported("return inside a summarised loop", s)
-        if out.stores != n_stores_before:
-            raise Unsupported("array store inside a summarised loop", s)
+        new_stores = {kk: v for kk, v in out.stores.items()
+                      if n_stores_before.get(kk) is not v
+                      and n_stores_before.get(kk) != v}
+        arr_summaries: dict[str, Poly] = {}
+        for (arr, idx), val in new_stores.items():
+            if arr in arr_summaries or len(idx) != 1:
+                raise Unsupported("several stores to one array in a loop", s)
+            cur = Poly.atom(("cell", arr, idx))
+            t = val - cur
+            if _uses(t, cur.as_atom()) or _carried_in(t, depth) or \
+                    _carried_in(idx[0], depth):
+                raise Unsupported("store in loop is not a per-key "
+                                  "accumulation", s)
+            base = fills.get(arr)
+            arr_summaries[arr] = Poly.atom(
+                ("keyacc", k, lo, hi, idx[0], t,
+                 base if base is not None else _opaque(arr, "not filled")))
+        for arr in stored_arrays:
+            if arr not in arr_summaries:
+                raise Unsupported(f"array {arr} written in loop in an "
+                                  "unrecognised way", s)
         # ------------------------------------------------ classification
         updates: dict[str, Any] = {}
         for nm in carried:
@@ -126,6 +152,30 @@ class LoopSummariser:
                     resolved[ca] = Poly.atom(("first", k, lo, init, prev))
                 final[nm] = Poly.atom(("last", k, lo, hi, u, init)) \
                     if isinstance(init, Poly) else ("undef",)
+        # arg-max group accumulation: (m, a) with m' = max(m, key) and
+        # a' = key > m ? t : key == m ? a + t : a
+        for nm_m in carried:
+            if nm_m in final:
+                continue
+            um = updates[nm_m]
+            if not isinstance(um, Poly):
+                continue
+            cm = ("carried", nm_m, depth)
+            st = self._step(um, cm)
+            if st is None or st[0] != "maxred":
+                continue
+            key = st[1]
+            for nm_a in carried:
+                if nm_a in final or nm_a == nm_m:
+                    continue
+                ua = updates[nm_a]
+                ca = ("carried", nm_a, depth)
+                if not isinstance(ua, Poly) or cm not in all_atoms(ua):
+                    continue
+                t = _argmax_group(ua, Poly.atom(cm), Poly.atom(ca), key)
+                if t is not None and not _carried_in(t, depth):
+                    final[nm_a] = Poly.atom(
+                        ("argmaxgroup", k, lo, hi, key, t))
         # substitute resolved carried atoms into the remaining updates
         for nm in carried:
             if nm in final:
@@ -147,6 +197,11 @@ class LoopSummariser:
             final[nm] = self._close(nm, u, ca, k, lo, hi, init)
         for nm, v in final.items():
             env.vars[nm] = v
+        for arr, summ in arr_summaries.items():
+            for key in list(env.stores):
+                if key[0] == arr:
+                    del env.stores[key]
+            env.stores[(arr, ("summary",))] = summ
         for nm in assigned:
             if nm not in carried:
                 env.vars[nm] = _opaque(nm, "defined only inside a loop")
@@ -186,7 +241,7 @@ class LoopSummariser:
             cond, x, y = a[1], a[2], a[3]
             if _uses(cond, ca):
                 # if t > m: m = t   /   if t < m: m = t
-                red = _minmax_ite(cond, x, y, cp)
+                red = _minmax_ite(cond, x, y, cp) or _minmax_enum(u, cp)
                 if red is not None:
                     kind, term = red
                     if not _uses(term, ca):
@@ -228,7 +283,79 @@ class LoopSummariser:
             red = _minmax_ite(a[1], a[2], a[3], cp)
             if red is not None and not _uses(red[1], ca):
                 return red
+            red = _minmax_enum(u, cp)
+            if red is not None and not _uses(red[1], ca):
+                return red
         return None
+
+
+def _minmax_enum(u: Poly, cp: Poly) -> tuple[str, Poly] | None:
+    """Decide by the 3 orderings of (key, m) whether an ite-tree computes
+    max(m, key) or min(m, key)."""
+    from sa import ordenum
+    terms = ordenum.ite_cond_terms(u)
+    others = [t for t in terms if t != cp]
+    if cp not in terms or len(others) != 1:
+        return None
+    key = others[0]
+    om = ordenum.OrderModel([key, cp])
+    sel = {}
+    try:
+        for name, ranks in (("lt", (0, 1)), ("eq", (0, 0)), ("gt", (1, 0))):
+            om.ranks = ranks
+            sel[name] = om.select(u)
+    except Unsupported:
+        return None
+    if sel["lt"] == cp and sel["gt"] == key and sel["eq"] in (cp, key):
+        return "maxred", key
+    if sel["lt"] == key and sel["gt"] == cp and sel["eq"] in (cp, key):
+        return "minred", key
+    return None
+
+
+def _stored_arrays(ev: Evaluator, env: Env, body: list[ast.stmt]) \
+        -> set[str]:
+    out: set[str] = set()
+    for n in ast.walk(ast.Module(body=body, type_ignores=[])):
+        if isinstance(n, (ast.Assign, ast.AugAssign)):
+            for t in (n.targets if isinstance(n, ast.Assign)
+                      else [n.target]):
+                if isinstance(t, ast.Subscript) and isinstance(
+                        t.value, ast.Name):
+                    b = env.vars.get(t.value.id)
+                    nm = t.value.id
+                    if isinstance(b, tuple) and b and b[0] == "array":
+                        nm = b[1]
+                    elif isinstance(b, Poly) and b.as_atom() and \
+                            b.as_atom()[0] == "var":
+                        nm = b.as_atom()[1]
+                    out.add(nm)
+    del ev
+    return out
+
+
+def _argmax_group(ua: Poly, m: Poly, a: Poly, key: Poly) -> Poly | None:
+    """Decide by enumerating the 3 orderings of (key, m) whether `ua` is the
+    group accumulator; returns the per-element term t or None."""
+    from sa import ordenum
+    om = ordenum.OrderModel([key, m])
+    sel = {}
+    try:
+        for name, ranks in (("lt", (0, 1)), ("eq", (0, 0)), ("gt", (1, 0))):
+            om.ranks = ranks
+            sel[name] = om.select(ua)
+    except Unsupported:
+        return None
+    if not all(isinstance(v, Poly) for v in sel.values()):
+        return None
+    if sel["lt"] != a:
+        return None
+    t = sel["eq"] - a
+    if _uses(t, a.as_atom()) or _uses(t, m.as_atom()):
+        return None
+    if sel["gt"] != t:
+        return None
+    return t
 
 
 def _minmax_ite(cond: tuple, x: Poly, y: Poly, cp: Poly) \
